@@ -492,7 +492,23 @@ func Exec(kind string, in []string) []string {
 	}
 	var outs []string
 	if in[4] != "-" {
-		for _, o := range strings.Split(in[4], ",") {
+		ops := strings.Split(in[4], ",")
+		// mode direct@wrap<P>: the first P operations (deliveries to one mailbox of the file store)
+		// are written straight into the mailbox index with ids that straddle the wrap of the
+		// process-wide counter within one second (…-9998, …-9999, …-0000, …): see wrap.go
+		if i := strings.Index(r.mode, "@wrap"); i >= 0 {
+			p := vh.AtoI(r.mode[i+5:])
+			r.mode = r.mode[:i]
+			if kind == "file" && p <= len(ops) {
+				toks, err := r.plantWrapped(dir, ops[:p])
+				if err != nil {
+					return []string{"PLANTERR", vh.HS(err.Error())}
+				}
+				outs = append(outs, toks...)
+				ops = ops[p:]
+			}
+		}
+		for _, o := range ops {
 			outs = append(outs, r.op(o))
 		}
 	}
